@@ -12,11 +12,15 @@ CONSTANTS
   ProbeNs <- NoProbes
   ProbeUids <- GUidsX
   MaxOld = 2
+  Transports <- TrIP
+  ScmpTypes <- ScmpNone
   Exhaustive = TRUE
   Biases <- BiasOne
   TickPct = 0
   ProbePct = 0
   StalePct = 0
   ExInj <- InjX
+  ScmpPct = 0
+  ExScmp <- ScmpX0
 INVARIANTS Emit
 PROPERTIES StepOfSpec
